@@ -267,10 +267,35 @@ fn worker(args: Args) {
     for run in args.from..cases.len() * np {
         let case = &cases[run / np];
         let place = args.places[run % np];
-        let bytes = out::case_bytes(case);
-        let al = case["al"].as_u64().unwrap_or(0) as usize;
-        let base = arena.place(&bytes, al, place);
-        let mut ctx = ops::Ctx::new(base, bytes.len());
+        // "huge": a zero-filled region of len8 * 8 bytes (up to 4 GiB - 8) of which only the patched pages exist
+        let huge = case["memx"]["huge"].as_object().map(|h| {
+            let len = h["len8"].as_u64().unwrap() as usize * 8;
+            let patches: Vec<(usize, Vec<u8>)> = h["patch"]
+                .as_array()
+                .map(|a| {
+                    a.iter()
+                        .map(|e| {
+                            // offsets from the start (off8 * 8) or back from the end (end)
+                            let off = match e["end"].as_u64() {
+                                Some(back) => len - back as usize,
+                                None => e["off8"].as_u64().unwrap_or(0) as usize * 8,
+                            };
+                            (off, e["b"].as_array().unwrap().iter().map(|b| b.as_u64().unwrap() as u8).collect())
+                        })
+                        .collect()
+                })
+                .unwrap_or_default();
+            guard::Huge::new(len, &patches)
+        });
+        let (base, len) = match &huge {
+            Some(h) => (h.base, h.len),
+            None => {
+                let bytes = out::case_bytes(case);
+                let al = case["al"].as_u64().unwrap_or(0) as usize;
+                (arena.place(&bytes, al, place), bytes.len())
+            }
+        };
+        let mut ctx = ops::Ctx::new(base, len);
         ops::prepare(&mut ctx, case);
         let mut reset = json!({"ev": "Reset", "run": run, "cfg": CFG, "place": place.name(), "case": case});
         if let Some(ext) = ctx.ext_json() {
